@@ -128,8 +128,12 @@ func (m recMetrics) SetIsLeader(v float64, _ prometheus.Labels) {
 	i := m.i
 	r := i.r
 	flag := v == 1
-	r.St.Client(i.spec.Name).atPhase(fmt.Sprintf("metric:isleader:%d", int(v)), "sink")
-	i.gauge.Store(int32(v))
+	// (the flag event marks term boundaries for the oracles: it is taken when the library
+	// makes the call; a slow sink is held afterwards, and only then shows the new value)
+	defer func() {
+		r.St.Client(i.spec.Name).atPhase(fmt.Sprintf("metric:isleader:%d", int(v)), "sink")
+		i.gauge.Store(int32(v))
+	}()
 	// Instant cross-read: atomically (w.r.t. the store) read the live record and
 	// every other instance's claim. The caller holds its own election mutex, so
 	// its own flag cannot move meanwhile.
